@@ -161,7 +161,7 @@ def live(sid, I, T, pattern, window_intervals=10):
     return {"id": sid, "kind": "iscp", "conn": {"pingMs": [I, T]}, "p": params(I, T), "steps": steps}
 
 
-def silent_mid(sid, I, T, k, frac, full, app, bping=False, close_delay=0, stray=0):
+def silent_mid(sid, I, T, k, frac, full, app, bping=False, close_delay=0, stray=0, noread=False):
     """the broker falls silent frac/4 of an interval after its k-th pong (k = 0: after the handshake); full = it answers
     nothing at all any more (the redial is then held at a gate until the broker talks again); app = an application
     request is in flight when the client gives up"""
@@ -179,13 +179,20 @@ def silent_mid(sid, I, T, k, frac, full, app, bping=False, close_delay=0, stray=
         steps += [{"a": "dialPlan", "dial": [{"do": "ok", "gate": "redial"}]}, {"a": "silent"}]
     else:
         steps.append({"a": "pongOff"})
+    if noread:
+        # the peer dies for good: it still takes the next ping and then reads nothing any more (every later write of the client finds
+        # nobody reading); it is declared lost all the same, within the usual bound
+        steps.append({"a": "rule", "rule": {"on": "Ping", "inc": 1, "nth": 1, "do": "stopRead"}})
     if stray:
         # a Pong nobody waits for (a duplicate of the last answer / an id never issued) arrives after the broker's last real answer: it is
         # not the answer to the NEXT ping
         steps.append({"a": "strayPong", "tag": 0 if stray == 1 else 99990})
     if app:
         steps.append({"a": "sendMeta", "g": "A", "tag": 9, "ctxMs": 4000})
-    steps.append({"a": "await", "ev": "BLinkDown", "match": {"c": 1, "cause": "clientClosed"}, "ms": detect_wait(I, T) + I})
+    if noread:      # (a peer that reads nothing does not notice the close: the client's own close of the transport is the detection event)
+        steps.append({"a": "await", "ev": "CliClose", "match": {"c": 1}, "ms": detect_wait(I, T) + I})
+    else:
+        steps.append({"a": "await", "ev": "BLinkDown", "match": {"c": 1, "cause": "clientClosed"}, "ms": detect_wait(I, T) + I})
     if full:
         steps += [{"a": "silent", "mode": "off"}, {"a": "sleep", "ms": 30}, {"a": "release", "gate": "redial"}]
     else:
@@ -319,6 +326,8 @@ def run():
         for k in ([1] if quick else [0, 1, 3]):
             for app in (False, True):
                 scs.append(silent_mid("C15/slowclose/%d-%d/k%d-%s" % (I, T, k, "app" if app else "idle"), I, T, k, 2, False, app, close_delay=1200))
+        for k in ([1] if quick else [0, 1, 3]):
+            scs.append(silent_mid("C15/deadpeer/%d-%d/k%d" % (I, T, k), I, T, k, 1, False, False, noread=True))
         if I == 200:
             # interval 1 s / timeout 100 ms: one interval of undetected silence lies well beyond the slack
             for stray in (1, 2):
